@@ -1,4 +1,7 @@
 use crate::regex_radix_tree::item::Item;
+#[cfg(kani)]
+use crate::verif_shim::map::{Values, ValuesMut};
+#[cfg(not(kani))]
 use std::collections::hash_map::{Values, ValuesMut};
 
 pub struct ItemIter<'a, V> {
